@@ -64,8 +64,19 @@ def lean_ranges(rs):
     return "[" + ", ".join("(%d, %d)" % r for r in rs) + "]"
 
 
+_TABLES = None
+
+
 def tables():
-    """the regenerated classes, as Python data (also used by the generators of harness/c03_invisible.py)"""
+    """the regenerated classes, as Python data (also used by the generators of harness/c03_invisible.py);
+    computed once per process"""
+    global _TABLES
+    if _TABLES is None:
+        _TABLES = _tables()
+    return _TABLES
+
+
+def _tables():
     import ural.patterns as pt
     import ural.quote as q
     import ural.utils as ut
